@@ -120,6 +120,7 @@ type VerifCoordState struct {
 	BalanceWaiting bool
 	DoChecking     bool
 	DataNodes      []string
+	LearnerNodes   []string
 	RemovingNodes  map[string]string
 }
 
@@ -138,6 +139,9 @@ func (pdCoord *PDCoordinator) VerifState() VerifCoordState {
 	for nid := range pdCoord.dataNodes {
 		s.DataNodes = append(s.DataNodes, nid)
 	}
+	for nid := range pdCoord.learnerNodes {
+		s.LearnerNodes = append(s.LearnerNodes, nid)
+	}
 	for nid, st := range pdCoord.removingNodes {
 		s.RemovingNodes[nid] = st
 	}
@@ -148,4 +152,26 @@ func (pdCoord *PDCoordinator) VerifState() VerifCoordState {
 // VerifWaitIntervals returns the two wait-interval gates of the migration control flow.
 func VerifWaitIntervals() (migrate time.Duration, removing time.Duration) {
 	return waitMigrateInterval, waitRemoveRemovingNodeInterval
+}
+
+// --- the learner placement driver (a PDCoordinator whose NodeInfo has a LearnerRole) ---
+
+func (pdCoord *PDCoordinator) VerifDoCheckNamespacesForLearner(monitorChan chan struct{}) {
+	pdCoord.doCheckNamespacesForLearner(monitorChan)
+}
+
+func (pdCoord *PDCoordinator) VerifAddNsLearnerToNode(nsInfo *cluster.PartitionMetaInfo, nid string) *cluster.CoordErr {
+	return pdCoord.addNsLearnerToNode(nsInfo, nid)
+}
+
+func (pdCoord *PDCoordinator) VerifRemoveNsLearnerFromNode(ns string, pid int, nid string, checkNode bool) error {
+	return pdCoord.removeNsLearnerFromNode(ns, pid, nid, checkNode)
+}
+
+func (pdCoord *PDCoordinator) VerifRemoveNsAllLearners(nsInfo *cluster.PartitionMetaInfo) error {
+	return pdCoord.removeNsAllLearners(nsInfo)
+}
+
+func (pdCoord *PDCoordinator) VerifUpdateNsLearnerLeader(nsInfo *cluster.PartitionMetaInfo, nid string) *cluster.CoordErr {
+	return pdCoord.updateNsLearnerLeader(nsInfo, nid)
 }
